@@ -6,6 +6,8 @@
 //
 // Schedules (binding B4 for spec/BuildGraphConc.tla), selected with -mode:
 //
+//	pre   (always, once per process when some run reports summaries) the harness computes the expected summaries with
+//	      the same calls as the first half of taint.Analyze: real parallel initialisation + summary worker pool
 //	free  the analyzer's goroutines run as the Go scheduler decides (a seeded jitter delays the summary writer)
 //	meet  the counterexample TLC finds for BuildGraphConc!NoRace with a detached writer: the writer reads the
 //	      summaries while the analysis goroutine builds summaries on demand (writes them), with no
@@ -364,12 +366,23 @@ func main() {
 	var expected []string
 	for _, c := range list {
 		if len(c) == 4 && c[0] == '1' {
-			fmt.Fprintf(os.Stderr, "C20RUN begin %s/expected/false\n", *name)
+			// the pre-pass runs the real parallel initialisation and the real summary worker pool: it is a run of
+			// its own (schedule "pre", no report option), so that race reports during it are attributed to it
+			pre := rec{Key: *name + "/pre/0000/0", Prog: *name, Mode: "pre", Expected: []string{}, AtReturn: []string{},
+				After: []string{}, Gbase: runtime.NumGoroutine()}
+			fmt.Fprintf(os.Stderr, "C20RUN begin %s\n", pre.Key)
+			t0 := time.Now()
 			e, err := expectedSummaries(*cfgPath, false, prog, pkgs)
-			settle(1, 30*time.Second)
-			fmt.Fprintf(os.Stderr, "C20RUN end %s/expected/false\n", *name)
+			pre.Ms = time.Since(t0).Milliseconds()
+			pre.Gafter = settle(pre.Gbase, 30*time.Second)
+			fmt.Fprintf(os.Stderr, "C20RUN end %s\n", pre.Key)
 			if err != nil {
 				fmt.Fprintln(os.Stderr, "expected summaries:", err)
+				os.Exit(2)
+			}
+			pre.Returned = true
+			if err := enc.Encode(pre); err != nil {
+				fmt.Fprintln(os.Stderr, err)
 				os.Exit(2)
 			}
 			expected = e
